@@ -1023,12 +1023,18 @@ class Ex:
             self.exec_block(st.orelse)
             return
 
+        def live():
+            lv = getattr(box, "live", None)
+            if lv is not None:
+                box.val = (lv.val, box.val[1])      # the iterator sees the list as it is now
+            return box.val
+
         def has_next():
-            seq, cur = box.val
+            seq, cur = live()
             return cur.t < seq.length()
 
         def take():
-            seq, cur = box.val
+            seq, cur = live()
             x = self.world.speclib.seq_index(self, seq, cur, checked=False)
             box.val = (seq, VInt(cur.t + 1))
             if enum_start is not None:
